@@ -521,6 +521,10 @@ func init() {
 		c.extra["clockPrev"] = v
 		return v
 	})
+	// time.Now: only used for file modification times in the in-memory file system; returns the zero Time
+	reg("time.Now", func(c *Ctx, fn *ssa.Function, a []Value) Value {
+		return c.zero(fn.Signature.Results().At(0).Type())
+	})
 	// ---- math on concrete floats ----
 	fl1 := func(f func(float64) float64) intrinsic {
 		return func(c *Ctx, fn *ssa.Function, a []Value) Value {
